@@ -50,7 +50,7 @@ def _rezone(x, minutes: int):
     return K.map_datetimes(x, fn)
 
 
-PROFILE = Profile("python_canonical+oversize", oversize_legacy=True)
+PROFILE = Profile("python_canonical+oversize", oversize_legacy=True, long_arrays=True)
 
 
 def check(cd, tree, extra):
@@ -113,7 +113,7 @@ SPEC = TreeSpec(
         "one Hypothesis run per entity class (all 1629 in thorough; shape set-cover + headers + "
         "seeded sample in quick); each case = canonical instance built from a generated wire tree "
         "(boundary-biased ints, 0/1/126..32767-byte strings, multi-byte UTF-8, null/empty/one/many "
-        "arrays, tagged default/non-default) re-expressed in a drawn UTC offset, encoded, followed by "
+        "arrays plus, in 1 of 25 array draws, 63..1000-item arrays (16382..16384 for scalars) cycling 1-3 units, tagged default/non-default) re-expressed in a drawn UTC offset, encoded, followed by "
         "a drawn tail (none/1 byte/16 bytes/second copy) and decoded; oracle: decoded == original and "
         "tell() == len(encoding); a legacy string of 32768 bytes must make the encoder raise OutOfBoundValue. Non-trivial = instance has a null/empty/multi-item array, nested "
         "non-default tagged field, string >=126 bytes, multi-byte text or an integer at a limit, AND a "
